@@ -49,9 +49,10 @@ def resolveObj (carrier : String) (env : Env) : Val → Val
   | .map kvs =>
     match lookup "environment" kvs with
     | some (.str e) =>
-      match env.lookup e with
-      | some found => .map (insert carrier (.str found) kvs)
-      | none => .map kvs
+      if e = "" then .map kvs      -- `if !ok || env == "" { continue }` (since the fix of `leak:config:empty-variable-name`)
+      else match env.lookup e with
+        | some found => .map (insert carrier (.str found) kvs)
+        | none => .map kvs
     | _ => .map kvs
   | v => v
 
@@ -69,8 +70,13 @@ def resolveConfigsEnv (env : Env) (dict : KVs) : KVs := resolveSection "configs"
 
 /-! ## `setNameFromKey` -/
 
-/-- `strconv.ParseBool(fmt.Sprint(x))` without the error -/
-def isTrue (x : Val) : Bool := ["1", "t", "T", "TRUE", "true", "True"].contains (fmtV x)
+/-- `isTrue` (loader/normalize.go): booleans as they are, strings by the YAML 1.1 spellings `toBoolean` converts later,
+    anything else as `strconv.ParseBool(fmt.Sprint(x))` without the error -/
+def isTrue (x : Val) : Bool :=
+  match x with
+  | .bool b => b
+  | .str s => ["true", "y", "yes", "on"].contains (String.ofList (s.toList.map Char.toLower))
+  | x => ["1", "t", "T", "TRUE", "true", "True"].contains (fmtV x)
 
 /-- `resource["name"] == nil` -/
 def nameIsNil (kvs : KVs) : Bool :=
@@ -92,7 +98,7 @@ def setNameKVs (pname key : String) (kvs : KVs) : KVs :=
 def setNameObj (pname key : String) : Val → Out Val
   | .null => .ok (.map (setNameKVs pname key []))
   | .map kvs => .ok (.map (setNameKVs pname key kvs))
-  | _ => .panic "loader.setNameFromKey"
+  | _ => .err "setNameFromKey"
 
 def setNameObjs (pname : String) : KVs → Out KVs
   | [] => .ok []
@@ -112,7 +118,7 @@ def setNameSection (pname sect : String) (dict : KVs) : Out KVs :=
     | .ok objs' => .ok (insert sect (.map objs') dict)
     | .err e => .err e
     | .panic s => .panic s
-  | some _ => .panic "loader.setNameFromKey"
+  | some _ => .err "setNameFromKey"
 
 /-- `fmt.Sprintf("%s", dict["name"])` for the kinds that reach it -/
 def pnameOf (dict : KVs) : Option String :=
@@ -221,13 +227,24 @@ def hook (kvs : KVs) : KVs :=
     | _ => kvs
   | _ => kvs
 
-/-- a string field: absent / null = zero value; other kinds are outside the modelled domain -/
+/-- a string field: absent / null = zero value; an integer is turned into its decimal text by the `cast` hook;
+every other kind is rejected by mapstructure (see `strRejects`) -/
 def strField (k : String) (kvs : KVs) : Option String :=
   match lookup k kvs with
   | none => some ""
   | some .null => some ""
   | some (.str s) => some s
+  | some (.int i) => some (fmtV (.int i))
   | _ => none
+
+/-- the kinds mapstructure refuses for a string field (no weak typing; `cast` only knows int → string) -/
+def strRejects (k : String) (kvs : KVs) : Bool :=
+  match lookup k kvs with
+  | some (.bool _) => true
+  | some (.float _) => true
+  | some (.seq _) => true
+  | some (.map _) => true
+  | _ => false
 
 /-- mapstructure looks for the exact tag first, then case-insensitively; the only
 case-variant the pipeline itself creates is `Content` (written by the hook) -/
@@ -236,16 +253,44 @@ def contentField (kvs : KVs) : Option String :=
   | some _ => strField "content" kvs
   | none => strField "Content" kvs
 
+def contentRejects (kvs : KVs) : Bool :=
+  match lookup "content" kvs with
+  | some _ => strRejects "content" kvs
+  | none => strRejects "Content" kvs
+
+def isAscii (s : String) : Bool := s.toList.all fun c => c.toNat < 128
+
+def lower (s : String) : String := String.ofList (s.toList.map Char.toLower)
+
+/-- `loader.toBoolean` (through the `cast` hook): `none` = invalid boolean -/
+def toBoolean (s : String) : Option Bool :=
+  if ["true", "y", "yes", "on"].contains (lower s) then some true
+  else if ["false", "n", "no", "off"].contains (lower s) then some false
+  else none
+
 def boolField (k : String) (kvs : KVs) : Option Bool :=
   match lookup k kvs with
   | none => some false
   | some .null => some false
   | some (.bool b) => some b
+  | some (.str s) => if isAscii s then toBoolean s else none     -- `strings.ToLower` beyond ASCII is outside the model
   | _ => none
 
+def boolRejects (k : String) (kvs : KVs) : Bool :=
+  match lookup k kvs with
+  | some (.str s) => isAscii s && (toBoolean s).isNone
+  | some (.int _) => true
+  | some (.float _) => true
+  | some (.seq _) => true
+  | some (.map _) => true
+  | _ => false
+
+/-- a `map[string]string` (driver_opts): string values, integers through `cast`, null = "" -/
 def strMapEntries : KVs → Option (List (String × String))
   | [] => some []
   | (k, .str s) :: r => (strMapEntries r).map ((k, s) :: ·)
+  | (k, .int i) :: r => (strMapEntries r).map ((k, fmtV (.int i)) :: ·)
+  | (k, .null) :: r => (strMapEntries r).map ((k, "") :: ·)
   | _ => none
 
 def strMapField (k : String) (kvs : KVs) : Option (List (String × String)) :=
@@ -255,6 +300,73 @@ def strMapField (k : String) (kvs : KVs) : Option (List (String × String)) :=
   | some (.map m) => strMapEntries m
   | _ => none
 
+def strMapRejects (k : String) (kvs : KVs) : Bool :=
+  match lookup k kvs with
+  | none => false
+  | some .null => false
+  | some (.map m) => m.any fun kv => match kv.2 with
+    | .bool _ => true | .float _ => true | .seq _ => true | .map _ => true | _ => false
+  | _ => true
+
+/-- `types.labelValue` on scalars; composite values are outside the model -/
+def labelVal : Val → Option String
+  | .null => some ""
+  | .str s => some s
+  | .int i => some (fmtV (.int i))
+  | .bool b => some (fmtV (.bool b))
+  | .float s => some s
+  | _ => none
+
+def labelEntries : KVs → Option (List (String × String))
+  | [] => some []
+  | (k, v) :: r =>
+    match labelVal v, labelEntries r with
+    | some s, some l => some ((k, s) :: l)
+    | _, _ => none
+
+/-- `strings.Cut(s, "=")` on code points -/
+def cutEqL : List Char → List Char × List Char
+  | [] => ([], [])
+  | c :: cs => if c = '=' then ([], cs) else ((c :: (cutEqL cs).1), (cutEqL cs).2)
+
+def cutEq (s : String) : String × String := (String.ofList (cutEqL s.toList).1, String.ofList (cutEqL s.toList).2)
+
+/-- Go `m[k] = v` on a string map -/
+def putStr (k v : String) : List (String × String) → List (String × String)
+  | [] => [(k, v)]
+  | (k', v') :: r => if k = k' then (k, v) :: r else (k', v') :: putStr k v r
+
+/-- the text `fmt.Sprint` gives for a scalar element of a label list -/
+def sprintScalar : Val → Option String
+  | .seq _ => none
+  | .map _ => none
+  | v => some (fmtV v)
+
+/-- `Labels.DecodeMapstructure` on the list form: `k, v, _ := strings.Cut(fmt.Sprint(e), "=")`, later entries win -/
+def labelList : List Val → List (String × String) → Option (List (String × String))
+  | [], acc => some acc
+  | x :: xs, acc =>
+    match sprintScalar x with
+    | some s => labelList xs (putStr (cutEq s).1 (cutEq s).2 acc)
+    | none => none
+
+def labelsField (kvs : KVs) : Option (List (String × String)) :=
+  match lookup "labels" kvs with
+  | none => some []
+  | some .null => some []
+  | some (.map m) => labelEntries m
+  | some (.seq xs) => labelList xs []
+  | _ => none
+
+/-- `unexpected value type %T for labels` -/
+def labelsRejects (kvs : KVs) : Bool :=
+  match lookup "labels" kvs with
+  | some (.str _) => true
+  | some (.int _) => true
+  | some (.bool _) => true
+  | some (.float _) => true
+  | _ => false
+
 def extField (kvs : KVs) : Option KVs :=
   match lookup extKey kvs with
   | none => some []
@@ -262,39 +374,52 @@ def extField (kvs : KVs) : Option KVs :=
   | some (.map m) => some m
   | _ => none
 
+def extRejects (kvs : KVs) : Bool :=
+  match lookup extKey kvs with
+  | none => false
+  | some .null => false
+  | some (.map _) => false
+  | _ => true
+
 /-- keys that the struct decode understands exactly (everything else is ignored by mapstructure,
 provided it does not case-fold to one of these — checked by `keysInDomain`) -/
 def fieldKeys : List String :=
   ["name", "file", "environment", "content", "external", "labels", "driver", "driver_opts", "template_driver", extKey]
 
-def lower (s : String) : String := String.ofList (s.toList.map Char.toLower)
-
 /-- no key is a case-variant of a field tag, except `Content`, and at most one of `content`/`Content` semantics is modelled -/
 def keysInDomain (kvs : KVs) : Bool :=
   kvs.all fun kv => fieldKeys.contains kv.1 || kv.1 == "Content" || !(fieldKeys.contains (lower kv.1) || lower kv.1 == "marshallcontent")
 
+/-- some modelled field holds a kind the real decode refuses: the decode fails whatever the other fields are -/
+def rejects (kvs : KVs) : Bool :=
+  strRejects "name" kvs || strRejects "file" kvs || strRejects "environment" kvs || contentRejects kvs ||
+  boolRejects "external" kvs || labelsRejects kvs || strRejects "driver" kvs || strMapRejects "driver_opts" kvs ||
+  strRejects "template_driver" kvs || extRejects kvs
+
+def failClass (kvs : KVs) : String := if rejects kvs then "decode" else "outOfDomain"
+
 def decodeFields (kvs : KVs) : Out FileObj :=
   match strField "name" kvs, strField "file" kvs, strField "environment" kvs, contentField kvs,
-        boolField "external" kvs, strMapField "labels" kvs, strField "driver" kvs,
+        boolField "external" kvs, labelsField kvs, strField "driver" kvs,
         strMapField "driver_opts" kvs, strField "template_driver" kvs, extField kvs with
   | some name, some file, some environment, some content, some external, some labels, some driver,
     some driverOpts, some templateDriver, some extensions =>
     if keysInDomain kvs then
       .ok { name, file, environment, content, external, labels, driver, driverOpts, templateDriver, extensions }
-    else .err "outOfDomain"
-  | _, _, _, _, _, _, _, _, _, _ => .err "outOfDomain"
+    else .err (failClass kvs)
+  | _, _, _, _, _, _, _, _, _, _ => .err (failClass kvs)
 
 /-- `Transform(v, &types.SecretConfig{})`: hook, then the struct decode -/
 def decodeSecret : Val → Out FileObj
   | .map kvs => decodeFields (hook kvs)
   | .null => .ok {}
-  | _ => .err "outOfDomain"
+  | _ => .err "decode"
 
 /-- `Transform(v, &types.ConfigObjConfig{})`: the hook does not fire for configs -/
 def decodeConfig : Val → Out FileObj
   | .map kvs => decodeFields kvs
   | .null => .ok {}
-  | _ => .err "outOfDomain"
+  | _ => .err "decode"
 
 def decodeObjs (f : Val → Out FileObj) : KVs → Out (List (String × FileObj))
   | [] => .ok []
@@ -396,7 +521,7 @@ def loadSection (isSecret : Bool) (env : Env) (pname : String) (dict : KVs) : Ou
     (setNameObjs pname (resolveObjs (if isSecret then xValue else "content") env objs)).bind fun objs2 =>
       decodeObjs (if isSecret then decodeSecret else decodeConfig)
         (pxKVs [if isSecret then "secrets" else "configs"] true objs2)
-  | some _ => .panic "loader.setNameFromKey"
+  | some _ => .err "setNameFromKey"
 
 def load (env : Env) (pname : String) (dict : KVs) : Out Proj :=
   (loadSection true env pname dict).bind fun ss =>
